@@ -663,10 +663,26 @@ pub fn string_repeat(
     args: &[JsValue],
 ) -> Result<Guarded, JsError> {
     let s = interp.to_js_string(&this);
-    let count = args.first().map(|v| v.to_number() as usize).unwrap_or(0);
+    let count = args.first().map(|v| v.to_number()).unwrap_or(0.0);
+    let count = if count.is_nan() { 0.0 } else { count.trunc() };
+    if count < 0.0 || count.is_infinite() {
+        return Err(JsError::range_error("Invalid count value"));
+    }
+    if s.as_str().len() as f64 * count > MAX_STRING_LENGTH as f64 {
+        return Err(JsError::range_error("Invalid string length"));
+    }
     Ok(Guarded::unguarded(JsValue::String(JsString::from(
-        s.as_str().repeat(count),
+        s.as_str().repeat(count as usize),
     ))))
+}
+
+/// Longest string a built-in will build (in bytes); beyond it the script gets a
+/// RangeError instead of the process attempting an impossible allocation
+const MAX_STRING_LENGTH: usize = (1 << 30) - 25;
+
+/// `pad_len` characters of `pad` repeated cyclically (padStart / padEnd)
+fn build_padding(pad: &str, pad_len: usize) -> String {
+    pad.chars().cycle().take(pad_len).collect()
 }
 
 pub fn string_replace(
@@ -860,12 +876,11 @@ pub fn string_pad_start(
         return Ok(Guarded::unguarded(JsValue::String(s)));
     }
 
-    let pad_len = target_length - current_len;
-    let mut padding = String::new();
-    while padding.len() < pad_len {
-        padding.push_str(pad_string.as_str());
+    if target_length > MAX_STRING_LENGTH {
+        return Err(JsError::range_error("Invalid string length"));
     }
-    padding.truncate(pad_len);
+    let pad_len = target_length - current_len;
+    let padding = build_padding(pad_string.as_str(), pad_len);
 
     Ok(Guarded::unguarded(JsValue::String(JsString::from(
         format!("{}{}", padding, s.as_str()),
@@ -889,12 +904,11 @@ pub fn string_pad_end(
         return Ok(Guarded::unguarded(JsValue::String(s)));
     }
 
-    let pad_len = target_length - current_len;
-    let mut padding = String::new();
-    while padding.len() < pad_len {
-        padding.push_str(pad_string.as_str());
+    if target_length > MAX_STRING_LENGTH {
+        return Err(JsError::range_error("Invalid string length"));
     }
-    padding.truncate(pad_len);
+    let pad_len = target_length - current_len;
+    let padding = build_padding(pad_string.as_str(), pad_len);
 
     Ok(Guarded::unguarded(JsValue::String(JsString::from(
         format!("{}{}", s.as_str(), padding),
